@@ -63,7 +63,13 @@ func (wl *WhopLoc) Continue(s *Scope, args List, depth int) Object {
 		}
 		return wrap.Call(ws, args, depth+1)
 	}
-	return wl.Method.InnerCall(s, args, depth)
+	// The before, primary, and after methods are not wrappers. They are
+	// called with the location hidden so that an attempt to continue from one
+	// of them is reported instead of calling the same methods again and
+	// again.
+	is := s.NewScope()
+	is.Let("~whopper-location~", nil)
+	return wl.Method.InnerCall(is, args, depth)
 }
 
 func (wl *WhopLoc) HasNext() bool {
